@@ -47,7 +47,7 @@ CLAIMED = {
     'C06': dict(design='§6 C06', technique='Lean 4 proof (calcProbs: permutation, count/total, stable sort, sum = 1 over Rat, Markov share) + bit-exact correspondence + file-by-file recomputation',
                 text='Theorems for every counter; real calculate_probabilities compared bit for bit; every list file of real trainings equals the independently recomputed relative-frequency list of the real parser counters; determinism across hash seeds.',
                 note='float sums differ from 1 by rounding only; which items reach which counter is C05'),
-    'C12': dict(design='§6 C12, App. B', technique='Lean 4 proof (two-actor state machine, induction over all schedules and stdin scripts) + real two-thread runs under a scripted baton + 6 real stdin kinds',
+    'C12': dict(design='§6 C12, App. B', technique='Lean 4 proof (two-actor state machine, induction over all schedules and stdin scripts) + real two-thread runs under a scripted baton + 8 real stdin kinds (incl. pseudo-terminal)',
                 text='For every schedule and stdin script: output is a prefix of the stream; complete unless q was read; exit only after q, saved, at a boundary. Quit-test source generated from the code. Real CrackingSession/keypress driven deterministically and compared with the model.',
                 note='OS scheduling and input() per stdin kind observed, not proved; GIL atomicity trusted'),
     'C15': dict(design='§6 C15, App. B', technique='Lean 4 proof (exit/resume exactness for arbitrary starting files, no-replay, enumerator state split) + scripted quits at every guess position with 2-3 resume cycles',
